@@ -1300,6 +1300,8 @@ def normalise(project, path=PINNED):
                 if not progress:
                     progress += split_ret_tuples(fi.node)
                 if not progress:
+                    progress += unroll_constant_loops(fi.node, rec_names | _params(fi.node))
+                if not progress:
                     progress += fold_list_concat(fi.node)
                 if not progress:
                     progress += hoist_common_branch_statements(fi.node)
@@ -1348,7 +1350,21 @@ def inline_new_module_constants(project, rec):
         known = rec.get(f"{mod.name}#globals")
         if known is None:
             continue
-        consts = {k: v for k, v in _module_constants(mod).items() if k not in known and _pure_constant_expr(v)}
+        consts = {}
+        folded = {}
+        for k, v in _module_constants(mod).items():
+            if k in known:
+                continue
+            try:
+                val = const_fold(v, folded)
+                folded[k] = val
+                if isinstance(val, (tuple, list)) or not _pure_constant_expr(v):
+                    consts[k] = value_to_ast(val)  # a table built by a comprehension / range: its literal
+                    continue
+            except _NoFold:
+                pass
+            if _pure_constant_expr(v):
+                consts[k] = v
         if not consts:
             continue
         for fi in project.functions.values():
@@ -1369,6 +1385,268 @@ def inline_new_module_constants(project, rec):
             if hasattr(fi, "_cfg"):
                 del fi._cfg
     return count
+
+
+class _NoFold(Exception):
+    pass
+
+
+_FOLD_LIMIT = 400
+
+
+def const_fold(e, env=None):
+    """Value of a constant expression built from literals only: numbers, strings, tuples / lists, names of folded
+    module constants, + - * // %, f-strings, range / tuple / list / enumerate / zip / len / str / int / reversed and
+    comprehensions over such values.  This is constant folding (what a compiler does with a literal table), not
+    execution of repository code: no function of the repository and no attribute of an object is ever evaluated.
+    Raises _NoFold for anything else."""
+    env = env or {}
+
+    def go(n, loc):
+        if isinstance(n, ast.Constant):
+            return n.value
+        if isinstance(n, (ast.Tuple, ast.List)):
+            if any(isinstance(x, ast.Starred) for x in n.elts):
+                raise _NoFold
+            vals = [go(x, loc) for x in n.elts]
+            return tuple(vals) if isinstance(n, ast.Tuple) else list(vals)
+        if isinstance(n, ast.Name):
+            if n.id in loc:
+                return loc[n.id]
+            if n.id in env:
+                return env[n.id]
+            raise _NoFold
+        if isinstance(n, ast.UnaryOp) and isinstance(n.op, (ast.USub, ast.UAdd)):
+            v = go(n.operand, loc)
+            if isinstance(v, (int, float)) and not isinstance(v, bool):
+                return -v if isinstance(n.op, ast.USub) else v
+            raise _NoFold
+        if isinstance(n, ast.BinOp):
+            a, b = go(n.left, loc), go(n.right, loc)
+            num = lambda x: isinstance(x, (int, float)) and not isinstance(x, bool)  # noqa: E731
+            if isinstance(n.op, ast.Add) and ((num(a) and num(b)) or (isinstance(a, str) and isinstance(b, str)) or (isinstance(a, tuple) and isinstance(b, tuple)) or (isinstance(a, list) and isinstance(b, list))):
+                return a + b
+            if num(a) and num(b):
+                if isinstance(n.op, ast.Sub):
+                    return a - b
+                if isinstance(n.op, ast.Mult):
+                    return a * b
+                if isinstance(n.op, ast.FloorDiv) and b != 0:
+                    return a // b
+                if isinstance(n.op, ast.Mod) and b != 0:
+                    return a % b
+            raise _NoFold
+        if isinstance(n, ast.JoinedStr):
+            out = ""
+            for part in n.values:
+                if isinstance(part, ast.Constant):
+                    out += str(part.value)
+                elif isinstance(part, ast.FormattedValue) and part.conversion == -1 and part.format_spec is None:
+                    v = go(part.value, loc)
+                    if not isinstance(v, (int, str)) or isinstance(v, bool):
+                        raise _NoFold
+                    out += str(v)
+                else:
+                    raise _NoFold
+            return out
+        if isinstance(n, ast.Subscript) and not isinstance(n.slice, ast.Slice):
+            v, i = go(n.value, loc), go(n.slice, loc)
+            if isinstance(v, (tuple, list, str)) and isinstance(i, int) and not isinstance(i, bool) and -len(v) <= i < len(v):
+                return v[i]
+            raise _NoFold
+        if isinstance(n, ast.Call) and isinstance(n.func, ast.Name) and not n.keywords:
+            f = n.func.id
+            args = [go(a, loc) for a in n.args]
+            seq = lambda x: isinstance(x, (tuple, list, range, str))  # noqa: E731
+            if f == "range" and 1 <= len(args) <= 3 and all(isinstance(a, int) and not isinstance(a, bool) for a in args):
+                r = range(*args)
+                if len(r) > _FOLD_LIMIT:
+                    raise _NoFold
+                return tuple(r)
+            if f in ("tuple", "list") and len(args) == 1 and seq(args[0]):
+                return tuple(args[0]) if f == "tuple" else list(args[0])
+            if f == "enumerate" and 1 <= len(args) <= 2 and seq(args[0]) and (len(args) == 1 or isinstance(args[1], int)):
+                return tuple(enumerate(args[0], *(args[1:])))
+            if f == "zip" and args and all(seq(a) for a in args):
+                return tuple(zip(*args))
+            if f == "reversed" and len(args) == 1 and seq(args[0]):
+                return tuple(reversed(args[0]))
+            if f == "len" and len(args) == 1 and seq(args[0]):
+                return len(args[0])
+            if f == "str" and len(args) == 1 and isinstance(args[0], (int, str)) and not isinstance(args[0], bool):
+                return str(args[0])
+            if f == "int" and len(args) == 1 and isinstance(args[0], int):
+                return int(args[0])
+            raise _NoFold
+        if isinstance(n, (ast.GeneratorExp, ast.ListComp)):
+            out = []
+
+            def gen(i, loc2):
+                if i == len(n.generators):
+                    out.append(go(n.elt, loc2))
+                    if len(out) > _FOLD_LIMIT:
+                        raise _NoFold
+                    return
+                g = n.generators[i]
+                if g.is_async:
+                    raise _NoFold
+                it = go(g.iter, loc2)
+                if not isinstance(it, (tuple, list, str)):
+                    raise _NoFold
+                for v in it:
+                    loc3 = dict(loc2)
+                    _bind_target(g.target, v, loc3)
+                    ok = True
+                    for cond in g.ifs:
+                        c = go(cond, loc3)
+                        if not isinstance(c, bool):
+                            raise _NoFold
+                        ok = ok and c
+                    if ok:
+                        gen(i + 1, loc3)
+
+            gen(0, loc)
+            return list(out) if isinstance(n, ast.ListComp) else tuple(out)
+        if isinstance(n, ast.Compare) and len(n.ops) == 1:
+            a, b = go(n.left, loc), go(n.comparators[0], loc)
+            if type(a) is type(b) and isinstance(a, (int, str)):
+                op = type(n.ops[0])
+                if op in (ast.Eq, ast.NotEq, ast.Lt, ast.LtE, ast.Gt, ast.GtE):
+                    return {ast.Eq: a == b, ast.NotEq: a != b, ast.Lt: a < b, ast.LtE: a <= b, ast.Gt: a > b, ast.GtE: a >= b}[op]
+            raise _NoFold
+        raise _NoFold
+
+    return go(e, {})
+
+
+def _bind_target(tg, v, loc):
+    if isinstance(tg, ast.Name):
+        loc[tg.id] = v
+    elif isinstance(tg, (ast.Tuple, ast.List)) and isinstance(v, (tuple, list)) and len(v) == len(tg.elts) and not any(isinstance(x, ast.Starred) for x in tg.elts):
+        for x, y in zip(tg.elts, v):
+            _bind_target(x, y, loc)
+    else:
+        raise _NoFold
+
+
+def value_to_ast(v):
+    if isinstance(v, tuple):
+        return ast.Tuple(elts=[value_to_ast(x) for x in v], ctx=ast.Load())
+    if isinstance(v, list):
+        return ast.List(elts=[value_to_ast(x) for x in v], ctx=ast.Load())
+    if isinstance(v, (int, float)) and not isinstance(v, bool) and v < 0:
+        return ast.UnaryOp(op=ast.USub(), operand=ast.Constant(value=-v))
+    return ast.Constant(value=v)
+
+
+def unroll_constant_loops(fn, rec_names):
+    """`for i, name in enumerate(("a", "b")): kw[name] = v[i]` -> `kw["a"] = v[0]; kw["b"] = v[1]`, and a list
+    comprehension over a literal table -> the list literal: the inverse of `replace repeated statements by a loop over
+    a table of names`.  Only for loops whose iterable folds to a constant (see const_fold), whose loop variables are
+    not locals of the recorded function, and whose body neither leaves the loop (break / continue / return) nor
+    rebinds a loop variable."""
+    import copy
+
+    done = [0]
+
+    def loop_vars(tg):
+        return {x.id for x in ast.walk(tg) if isinstance(x, ast.Name)}
+
+    def subst(node, binding):
+        class S(ast.NodeTransformer):
+            def visit_Name(self, n):
+                if n.id in binding and isinstance(n.ctx, ast.Load):
+                    return ast.copy_location(value_to_ast(binding[n.id]), n)
+                return n
+
+        return S().visit(copy.deepcopy(node))
+
+    def try_unroll_for(st):
+        if not isinstance(st, ast.For) or st.orelse:
+            return None
+        vs = loop_vars(st.target)
+        if not vs or vs & rec_names:
+            return None
+        try:
+            seq = const_fold(st.iter)
+        except _NoFold:
+            return None
+        if not isinstance(seq, (tuple, list)) or not (0 < len(seq) <= 64):
+            return None
+        for x in ast.walk(ast.Module(body=st.body, type_ignores=[])):
+            if isinstance(x, (ast.Break, ast.Continue, ast.Return, ast.Yield, ast.YieldFrom, ast.FunctionDef, ast.Lambda)):
+                return None
+            if isinstance(x, ast.Name) and isinstance(x.ctx, (ast.Store, ast.Del)) and x.id in vs:
+                return None
+        out = []
+        for v in seq:
+            binding = {}
+            try:
+                _bind_target(st.target, v, binding)
+            except _NoFold:
+                return None
+            for b in st.body:
+                out.append(ast.copy_location(subst(b, binding), st))
+        return out
+
+    def walk_body(body):
+        i = 0
+        while i < len(body):
+            st = body[i]
+            rep = try_unroll_for(st)
+            if rep is not None:
+                body[i : i + 1] = rep
+                done[0] += 1
+                continue  # the unrolled copies may contain loops that are constant now
+            for fld in ("body", "orelse", "finalbody"):
+                sub = getattr(st, fld, None)
+                if isinstance(sub, list) and sub and isinstance(sub[0], ast.stmt):
+                    walk_body(sub)
+            for h in getattr(st, "handlers", []) or []:
+                walk_body(h.body)
+            i += 1
+
+    walk_body(fn.body)
+
+    class C(ast.NodeTransformer):
+        def visit_ListComp(self, n):
+            self.generic_visit(n)
+            vs = set()
+            for g in n.generators:
+                vs |= loop_vars(g.target)
+            if vs & rec_names:
+                return n
+            # every generator's iterable must fold given the outer ones; build the element list by substitution
+            out = []
+
+            def gen(i, binding):
+                if i == len(n.generators):
+                    out.append(subst(n.elt, binding))
+                    return
+                g = n.generators[i]
+                if g.ifs or g.is_async:
+                    raise _NoFold
+                seq = const_fold(subst(g.iter, binding))
+                if not isinstance(seq, (tuple, list)) or len(seq) > 64:
+                    raise _NoFold
+                for v in seq:
+                    b2 = dict(binding)
+                    _bind_target(g.target, v, b2)
+                    gen(i + 1, b2)
+
+            try:
+                gen(0, {})
+            except _NoFold:
+                return n
+            if not out:
+                return n
+            done[0] += 1
+            return ast.copy_location(ast.List(elts=out, ctx=ast.Load()), n)
+
+    C().visit(fn)
+    if done[0]:
+        ast.fix_missing_locations(fn)
+    return done[0]
 
 
 def fold_list_concat(fn):
